@@ -668,7 +668,7 @@ class Operator(object):
         if x not in self.domain:
             try:
                 x = self.domain.element(x)
-            except (TypeError, ValueError):
+            except (TypeError, ValueError, OverflowError):
                 raise OpDomainError(
                     'unable to cast {!r} to an element of '
                     'the domain {!r}'.format(x, self.domain))
@@ -696,7 +696,7 @@ class Operator(object):
             if out not in self.range:
                 try:
                     out = self.range.element(out)
-                except (TypeError, ValueError):
+                except (TypeError, ValueError, OverflowError):
                     raise OpRangeError(
                         'unable to cast {!r} to an element of '
                         'the range {!r}'.format(out, self.range))
